@@ -8,6 +8,7 @@ import (
 	"os"
 	"path/filepath"
 	"sort"
+	"strings"
 	"time"
 
 	"github.com/wmnsk/go-pfcp/ie"
@@ -176,7 +177,8 @@ func e2eInjectWorker(args []string) error {
 
 	// target peer: set up the requested state with ordinary (recorded, fully judged) steps
 	setup := func(state int) uint64 {
-		// 0 no association, 1 associated, 2 session established, 3 session modified, 4 session deleted, 5 association released
+		// 0 no association, 1 associated, 2 session established, 3 session modified, 4 session deleted, 5 association released,
+		// 6 session emptied (only the session messages are injected in this state)
 		if state == 0 {
 			return 0
 		}
@@ -217,6 +219,16 @@ func e2eInjectWorker(args []string) error {
 			w.Del("t", &e2e.SessReq{Hdr: up})
 		}
 
+		if state == 6 {
+			// the session is emptied: a modification removes every rule it has (the session itself stays)
+			rm := &e2e.SessReq{Hdr: up, RFAR: []uint32{1, 2}, RQER: []uint32{1, 2}}
+			for _, pd := range r.CPDR {
+				rm.RPDR = append(rm.RPDR, pd.ID)
+			}
+
+			w.Mod("t", rm)
+		}
+
 		return up
 	}
 
@@ -254,6 +266,20 @@ func e2eInjectWorker(args []string) error {
 		w.Inject("t", what, raw(up))
 		sum.Cases++
 
+		// a PFD Management Request that was taken over (however it was mutated) is used: a PDR of the same peer names the
+		// application it provisions (what that PDR then matches is not judged - the agent must survive it)
+		if strings.Contains(what, "msg=pfd") && state >= 1 && state <= 3 && !w.Died {
+			cp += 3
+			ue++
+
+			fr := simpleSession(cp, ue, 1)
+			for i := range fr.CPDR {
+				fr.CPDR[i].AppID, fr.CPDR[i].SDF = "app1", nil
+			}
+
+			w.Inject("t", what+" followup: establishment naming the application", sessReqBytes(w.Peer("t"), fr))
+		}
+
 		probe()
 
 		if w.Died {
@@ -276,6 +302,10 @@ func e2eInjectWorker(args []string) error {
 	// (1) every single IE mutation of every message type, in every requested state
 	for _, state := range p.States {
 		for _, typ := range injectTypes {
+			if state == 6 && typ != "mod" && typ != "del" {
+				continue
+			}
+
 			base, err := mutate.Parse(baseMessages(tp, 1, 1, 1)[typ])
 			if err != nil {
 				return fmt.Errorf("base %s: %v", typ, err)
@@ -471,12 +501,12 @@ func C01(c *core.Ctx) {
 	c.Assume("IE trees are mutated independently of go-pfcp's message structs and re-encoded with consistent outer lengths; byte-level garbage is generated by the harness")
 
 	nshards := 12
-	states := []int{2, 0}
+	states := []int{2, 0, 6}
 	garbage, pairs := 40, 15
 
 	if c.Thorough() {
 		nshards = 14
-		states = []int{0, 1, 2, 3, 4, 5}
+		states = []int{0, 1, 2, 3, 4, 5, 6}
 		garbage, pairs = 1500, 400
 	}
 
@@ -527,4 +557,26 @@ func C01(c *core.Ctx) {
 	judgeE2E(c, res, map[string]bool{"InEnvelope": true})
 	c.SetCov("distinct_nontrivial", int64(cases))
 	_ = time.Second
+}
+
+// sessReqBytes encodes a Session Establishment Request of the peer (for injection as a raw datagram).
+func sessReqBytes(p *pfcpx.Peer, r *e2e.SessReq) []byte {
+	ies := []*ie.IE{ie.NewNodeID(p.NodeID, "", ""), ie.NewFSEID(r.CP, net.ParseIP(p.NodeID).To4(), nil)}
+	for _, x := range r.CPDR {
+		ies = append(ies, x.CreateIE())
+	}
+
+	for _, x := range r.CFAR {
+		ies = append(ies, x.CreateIE())
+	}
+
+	for _, x := range r.CQER {
+		ies = append(ies, x.CreateIE())
+	}
+
+	m := message.NewSessionEstablishmentRequest(0, 0, 0, p.NextSeq(), 0, ies...)
+	b := make([]byte, m.MarshalLen())
+	_ = m.MarshalTo(b)
+
+	return b
 }
